@@ -38,6 +38,12 @@ UN8 = TStruct("un8_t", (TField("q", INTS["uint64"]), TField("b", TArr(INTS["uint
 DEEP = TStruct("deep_t", (TField("c", CHAR), TField("arr", TArr(A.NEST2, 2)), TField("t", INTS["uint16"])))
 
 
+# types created with their fields known up front (inline declarations): interior and tail padding when aligned
+ANONP = TStruct("__anon_p", (TField("pa", INTS["uint8"]), TField("pb", INTS["uint32"]), TField("pc", INTS["uint8"])))
+ANONU = TStruct("__anon_u", (TField("uq", INTS["uint32"]), TField("ub", TArr(INTS["uint8"], 5))), union=True)
+ANONN = TStruct("__anon_n", (TField("na", INTS["uint8"]), TField("ni", ANONP), TField("nb", INTS["uint16"])))
+
+
 def layout_atoms():
     out = [A.atom(t) for t in INTS.values()] + [A.atom(t) for t in FLOATS.values()] + [A.atom(CHAR), A.atom(WCHAR), A.atom(A.E16s), A.atom(A.F32)]
     for t in (TArr(INTS["uint8"], 3), TArr(INTS["uint16"], 2), TArr(INTS["uint24"], 2), TArr(INTS["uint32"], 0), TArr(CHAR, 3), TArr(WCHAR, 2),
@@ -45,13 +51,14 @@ def layout_atoms():
         out.append(A.atom(t))
     out += [A.atom(A.IN), A.atom(A.IN2), A.atom(A.NEST2), A.atom(A.UN), A.atom(UN8), A.atom(DEEP), A.atom(TPtr(INTS["uint8"])), A.atom(TPtr(A.IN)),
             A.atom(TArr(TPtr(INTS["uint16"]), 2))]
+    out += [A.atom(ANONP), A.atom(TArr(ANONP, 2)), A.atom(ANONU), A.atom(ANONN)]
     for a in out:
         A.register(a)
     return out
 
 
 def class_atoms():
-    names = ["uint8", "uint16", "uint32", "uint64", "uint24", "uint48", "uint128", "uint8[3]", "in_t", "in2_t", "un_t", "uint8*"]
+    names = ["uint8", "uint16", "uint32", "uint64", "uint24", "uint48", "uint128", "uint8[3]", "in_t", "in2_t", "un_t", "uint8*", "__anon_p"]
     allat = {a.name: a for a in layout_atoms()}
     return [allat[n] for n in names]
 
